@@ -27,6 +27,11 @@ Znorm = z3.Function('Znorm', RngState, z3.IntSort(), z3.IntSort(), z3.RealSort()
 Uunif = z3.Function('Uunif', RngState, z3.IntSort(), z3.IntSort(), z3.RealSort())
 Elap = z3.Function('Elap', RngState, z3.IntSort(), z3.IntSort(), z3.RealSort())
 Iint = z3.Function('Iint', RngState, z3.IntSort(), z3.IntSort(), z3.IntSort())
+# integer outcomes depend on HOW the stream is consumed (numpy transforms the same raw bits differently for
+# integers(low, high), choice over N items, permutations ...): the kind of draw and its range are arguments
+Ipos = z3.Function('Ipos', RngState, z3.IntSort(), z3.IntSort(), z3.IntSort(), z3.IntSort(), z3.IntSort())
+Irange = z3.Function('Irange', RngState, z3.IntSort(), z3.IntSort(), z3.IntSort(), z3.IntSort(), z3.IntSort())
+_OPCODE = {'choice': 0, 'gchoice': 1, 'permutation': 2, 'shuffle': 3}
 
 LOG = []          # draws of the current path
 _FAC = {}         # covariance-entry terms -> factor atoms (multivariate_normal)
@@ -154,7 +159,8 @@ def _laplace(stream, loc, scale, size):
 
 def _positions(stream, n, N, distinct, op):
     """n symbolic positions in [0, N) (pairwise distinct if asked)"""
-    k, ts = stream.draw(Iint, n)
+    code = z3.IntVal(_OPCODE.get(op, 9) * 2 + (1 if distinct else 0))
+    k, ts = stream.draw(lambda st, kk, ii: Ipos(st, kk, ii, z3.IntVal(N), code), n)
     e = engine()
     for t in ts:
         e.assume(SB(z3.And(t >= 0, t < N)))
@@ -172,6 +178,17 @@ def _select(pos_term, pos_sv, items):
     if all((not is_sym(x)) and isinstance(x, int) and not isinstance(x, bool) and x == i
            for i, x in enumerate(items)):
         return pos_sv
+    if all(isinstance(x, (bool, SB)) for x in items):
+        bs = [x.t if isinstance(x, SB) else z3.BoolVal(x) for x in items]
+        t = bs[-1]
+        for i in range(len(bs) - 2, -1, -1):
+            t = z3.If(pos_term == i, bs[i], t)
+        t = z3.simplify(t)
+        if z3.is_true(t):
+            return True
+        if z3.is_false(t):
+            return False
+        return SB(t)
     allint = all((isinstance(x, int) and not isinstance(x, bool)) or (isinstance(x, SV) and x.isint) for x in items)
     zs = []
     for x in items:
@@ -407,7 +424,10 @@ class Generator:
             if n == 0:
                 return np.ndarray._new([], shape, 'int')
             raise ValueError("low >= high")
-        k, ts = self._s.draw(Iint, n)
+        def zi(v):
+            return v.p.z3(as_int=True) if isinstance(v, SV) else z3.IntVal(int(v))
+        lo_t, hi_t = zi(low), zi(high)
+        k, ts = self._s.draw(lambda st, kk, ii: Irange(st, kk, ii, lo_t, hi_t), n)
         e = engine()
         vs = _atoms(ts, True)
         for v in vs:
